@@ -301,6 +301,46 @@ func c31(x *Ctx) {
 		}
 	}
 	c.Min(r6, 2)
+
+	// ---- the second generation is only ever started, or promoted – never thrown away ---------------------------
+	// (every dropped decision recorded since the future filter was started lives in it too; replacing a live
+	// future filter by an empty one makes those decisions vanish at the next rotation, long before the filter fills)
+	const r7 = "C31.future-generation-kept"
+	{
+		curF := eng.FieldIs("collect/cache", "CuckooTraceChecker", "current")
+		futF := eng.FieldIs("collect/cache", "CuckooTraceChecker", "future")
+		ord := map[*ssa.Function]int{}
+		for _, w := range eng.FieldWrites(x.PkgFuncs("collect/cache"), futF) {
+			rv := w.Fn.Signature.Recv()
+			if rv == nil || !strings.Contains(rv.Type().String(), "CuckooTraceChecker") {
+				continue // constructor: the object is not shared yet
+			}
+			st := w.Instr.(*ssa.Store)
+			c.Examined++
+			// (a) only reachable while there is no future filter
+			as := &eng.Assume{Nil: func(v ssa.Value) eng.Tri {
+				if loadsField(v, futF) {
+					return eng.False
+				}
+				return eng.Unknown
+			}}
+			r := eng.ReachableSinks(w.Fn, as, nil, func(i2 ssa.Instruction) bool { return i2 == ssa.Instruction(st) })
+			ok := len(r.Hits) == 0
+			// (b) the old future filter has just become the current one (rotation)
+			if !ok {
+				for _, w2 := range eng.FieldWrites([]*ssa.Function{w.Fn}, curF) {
+					st2 := w2.Instr.(*ssa.Store)
+					if loadsField(st2.Val, futF) && eng.Dominates(st2, st) {
+						ok = true
+					}
+				}
+			}
+			ord[w.Fn]++
+			c.Decide(ok, r7, sprintf("%s/future#%d", BaseName(w.Fn), ord[w.Fn]), x.Pos(st), "the future filter is replaced only when absent or right after it was promoted to current",
+				"a live future filter is overwritten without having been promoted to current: the second copy of every dropped decision recorded since it was started is discarded, so those traces are forgotten at the next rotation although the filter never filled up")
+		}
+	}
+	c.Min(r7, 2)
 }
 
 func triOf(b bool) eng.Tri {
